@@ -163,6 +163,15 @@ Proof.
   - apply locked_sub_flushed.
 Qed.
 
+Lemma C16_generation_without_primary_fails_proof : forall s0 o g fb,
+  inflight s0 = true -> primary s0 = [] -> flushing s0 = Some (g, fb) -> fb <> [] ->
+  closed (complete s0 o) = true /\ pending (complete s0 o) = Some false /\ store (complete s0 o) = store s0.
+Proof.
+  intros s0 o g fb Hi Hp Hf Hne. unfold complete. rewrite Hi, Hp, Hf. cbn [is_nil andb].
+  destruct fb as [|e t]; [congruence|]. cbn [is_nil negb andb closed pending store].
+  rewrite !Bool.andb_false_r. cbn. rewrite Bool.orb_true_r. repeat split; reflexivity.
+Qed.
+
 Lemma C16_resolve_covers_prefix_refuted_proof :
   exists P ops sp, forallb op_keys_ok ops = true /\ ssorted sp /\
     let s := run P ops in
